@@ -780,6 +780,7 @@ def check_sink(cfg, sc, ds, rows=None):
 
 def run_sink_scenario(args):
     idx, sc, base = args
+    import numpy as np
     import osyris
     d = work_dir(f"s{idx}")
     out = []
@@ -787,6 +788,9 @@ def run_sink_scenario(args):
         variants = [("csv", sink_csv(sc))]
         if idx % 9 == 0:
             variants += [("empty", ""), ("missing", None)]
+        if idx % 5 == 0:
+            # the file RAMSES writes while no sink has formed yet: the two header lines and no row
+            variants += [("header-only", "\n".join(sink_csv(sc).split("\n")[:2]) + "\n")]
         for vname, text in variants:
             cfg = dict(base["cfg"], sink=text)
             shutil.rmtree(d, ignore_errors=True)
@@ -799,6 +803,11 @@ def run_sink_scenario(args):
                         ds = osyris.RamsesDataset(cfg["nout"], path=d).load(select=sel)
                     if vname == "csv":
                         detail = check_sink(cfg, sc, ds)
+                    elif vname == "header-only":
+                        if "sink" not in ds.keys() or any(len(np.atleast_1d(c.values)) != 0 for v in ds["sink"].values() for c in common.comps_of(v).values()):
+                            detail = "a sink file without rows must give an empty sink group"
+                        if sel is None and "mesh" not in ds.keys():
+                            detail = "the mesh was not loaded next to an empty sink table"
                     elif vname == "empty":
                         if "sink" not in ds.keys() or len(ds["sink"].keys()) != 0:
                             detail = "an empty sink file must give an empty sink group"
